@@ -1,6 +1,7 @@
 package varexp
 
 import (
+	"fmt"
 	"strconv"
 
 	ucfg "github.com/elastic/go-ucfg"
@@ -13,7 +14,15 @@ import (
 // tasks, each reading with options of its own.
 type Shared struct {
 	E *E
+	// the world parsed without a path separator (readers bring separators of their own)
+	noSep bool
+	root  *ucfg.Config
+	names []string
+	desc  string
 }
+
+// VNull is a null setting (only drawn for the shared worlds of E5; the expression model never meets it).
+const VNull VKind = 50
 
 // NewShared draws a world whose reads also resolve names through per-task
 // resolvers, including answers that parse into objects and lists (which makes
@@ -22,6 +31,28 @@ func NewShared(r *sim.R) *Shared {
 	e := &E{R: r, Prop: r.Prop, sep: "."}
 	e.Setup()
 	t := r.T
+	if t.Chance(1, 5, "shared-parsed-without-separator") {
+		// A config created with VarExp but without PathSep: "a.b" is a plain name next to the object
+		// a: {b: ...}, and the name a nested reference computes is read as the config was parsed -
+		// whatever separator the reader of the moment passes, and whoever read before it.
+		in := map[string]interface{}{
+			"a.b":  "flat" + e.tok(),
+			"a":    map[string]interface{}{"b": "nested" + e.tok(), "c": nil},
+			"name": "a.b",
+			"r":    "${${name}}",
+			"rd":   "${${name}:dflt}",
+			"ra":   "x${${name}:+alt}",
+			"p":    "${a.b}",
+			"nl":   nil,
+		}
+		c, err := ucfg.NewFrom(in, ucfg.VarExp)
+		if err != nil {
+			panic("harness: shared config without separator: " + err.Error())
+		}
+		r.Probe("shared: config parsed without a path separator, readers differ in theirs")
+		return &Shared{E: e, noSep: true, root: c, names: []string{"a", "a.b", "name", "nl", "nl.x", "p", "r", "ra", "rd"},
+			desc: fmt.Sprint(in)}
+	}
 	// a few settings that go through the per-task resolvers
 	extra := map[string]*setting{}
 	if t.Bool("shared-obj") {
@@ -42,21 +73,45 @@ func NewShared(r *sim.R) *Shared {
 	if t.Bool("shared-empty-list") {
 		extra["el"] = &setting{lit: &Val{K: VList}}
 	}
+	hasNull := t.Bool("shared-null")
+	if hasNull {
+		// a null stored under a name: looking at it as an object (Child, a path through it) is a read
+		extra["nl"] = &setting{lit: &Val{K: VNull}}
+	}
 	for k, v := range extra {
 		e.root[k] = v
 	}
 	e.buildQuiet()
-	return &Shared{E: e}
+	sh := &Shared{E: e}
+	if hasNull {
+		sh.names = append(e.settingNames(), "nl.x")
+	}
+	return sh
 }
 
 // Root is the shared config.
-func (s *Shared) Root() *ucfg.Config { return s.E.rootCfg }
+func (s *Shared) Root() *ucfg.Config {
+	if s.root != nil {
+		return s.root
+	}
+	return s.E.rootCfg
+}
 
-// Names are the settings of the shared config.
-func (s *Shared) Names() []string { return s.E.settingNames() }
+// Names are the names the readers use: the settings of the shared config, and paths through a null.
+func (s *Shared) Names() []string {
+	if s.names != nil {
+		return s.names
+	}
+	return s.E.settingNames()
+}
 
 // Describe renders the world.
-func (s *Shared) Describe() string { return describeLayer(s.E.root) }
+func (s *Shared) Describe() string {
+	if s.desc != "" {
+		return s.desc
+	}
+	return describeLayer(s.E.root)
+}
 
 // TaskOpts returns the options a task reads with: the world's options plus a
 // resolver of its own whose answers carry the task's number.
@@ -72,6 +127,17 @@ func (s *Shared) TaskOpts(task int) []ucfg.Option {
 			return "[" + tag + "a, " + tag + "b]", parse.DefaultConfig, nil
 		}
 		return "", parse.DefaultConfig, ucfg.ErrMissing
+	}
+	if s.noSep {
+		// every reader brings its own idea of the separator
+		o := []ucfg.Option{ucfg.VarExp, ucfg.Resolve(own)}
+		switch task % 3 {
+		case 1:
+			o = append(o, ucfg.PathSep("."))
+		case 2:
+			o = append(o, ucfg.PathSep("/"))
+		}
+		return o
 	}
 	return append(append([]ucfg.Option{}, s.E.opts...), ucfg.Resolve(own))
 }
